@@ -63,6 +63,12 @@ claim("C10", "model_checking",
       "Trusts M1 (bound to the prover by C05), the integer spec M5, and the boundary alphabet.",
       "DESIGN.md §5 C10")
 
+claim("C17", "fault_enumeration",
+      "structure-aware exhaustive byte-fault enumeration (bit flips, every length field x value set, every truncation point, extensions, field splices, hand-built invalid elements, re-packed MessagePack/deflate payloads, deflate bombs) over every checked decoder, in isolated child processes with a counting allocator and watchdog",
+      "Every enumerated faulted encoding of provers, verifiers, proofs, public parameters, commit keys (compressed and raw, reached through the public decoders) and compressed circuits is decoded by the real code in a build with debug assertions and overflow checks: it must return Ok or Err - no panic, abort or hang (per-case watchdog in child processes), peak allocation <= 2 x the valid peak + 1 MiB (compressed circuits: bounded by the parameters' capacity); whatever is accepted must re-encode to bytes a strict independent parser accepts (canonical scalars, on-curve prime-order points, flags in {0,1}, non-identity opening keys) and must be usable for proving / verifying / compiling without panicking.",
+      "Fault depth 1 (quick) / 2 on integer fields (thorough); bulk data of large provers is strided (coverage per object and operator family is listed in the evidence). Trusts the strict parser and dusk-bls12_381 point validation predicates.",
+      "DESIGN.md §5 C17")
+
 ALL = [f"C{i:02d}" for i in range(1, 21)]
 
 def main():
